@@ -526,7 +526,35 @@ func (c *Ctx) Select(arr, idx *Term) *Term {
 	if arr.Op == "constarr" {
 		return arr.Args[0]
 	}
+	if arr.Op == "ite" && !mentionsBound(idx) {
+		// select(ite(g, A, B), i) = ite(g, select(A, i), select(B, i)): keeps array-valued ite (control-flow merges of
+		// heaps) out of the queries; the solvers are far better at scalar ite
+		return c.Ite(arr.Args[0], c.Select(arr.Args[1], idx), c.Select(arr.Args[2], idx))
+	}
 	return c.mk(&Term{Op: "select", Args: []*Term{arr, idx}, Sort: arr.Sort.Elem})
+}
+
+// mentionsBound: the (small) index term contains a quantifier-bound variable. Selects at bound indices are left on
+// the array-valued ite: pushing them inside would destroy the select(A, x) instantiation patterns.
+func mentionsBound(t *Term) bool {
+	n := 0
+	var rec func(t *Term) bool
+	rec = func(t *Term) bool {
+		n++
+		if n > 64 {
+			return true // large index term: be conservative, do not rewrite
+		}
+		if t.Op == "bound" {
+			return true
+		}
+		for _, a := range t.Args {
+			if rec(a) {
+				return true
+			}
+		}
+		return false
+	}
+	return rec(t)
 }
 
 func (c *Ctx) Store(arr, idx, v *Term) *Term {
